@@ -125,7 +125,7 @@ impl Gen {
         };
         for i in 0..n_data {
             let name = format!("D{}", i);
-            let kind = self.rng.below(7);
+            let kind = self.rng.below(8);
             let idx = self.decls.data.len();
             let decl = match kind {
                 | 0 => {
@@ -173,6 +173,22 @@ impl Gen {
                     let tv = self.fresh_tv();
                     let ctors = vec![(next_ctor(self), VTy::Unit), (next_ctor(self), prod(vec![VTy::Var(tv), VTy::Int]))];
                     DataDecl { name, params: vec![tv], ctors, sealed: self.rng.chance(1, 2), recursive: false }
+                }
+                | 7 => {
+                    // wide enumeration: ten or more constructors, a few with payloads
+                    self.feat("wide-data");
+                    let n = 10 + self.rng.below(4);
+                    let ctors = (0..n)
+                        .map(|_| {
+                            let payload = match self.rng.below(8) {
+                                | 0 => VTy::Int,
+                                | 1 => VTy::Str,
+                                | _ => VTy::Unit,
+                            };
+                            (next_ctor(self), payload)
+                        })
+                        .collect();
+                    DataDecl { name, params: vec![], ctors, sealed: self.rng.chance(1, 2), recursive: false }
                 }
                 | _ => {
                     // random sum
@@ -233,7 +249,7 @@ impl Gen {
             | 1 => VTy::Str,
             | 2 => VTy::Unit,
             | 3 => {
-                let n = 2 + self.rng.below(2);
+                let n = if self.rng.chance(1, 5) { 4 + self.rng.below(2) } else { 2 + self.rng.below(2) };
                 prod((0..n).map(|_| self.gen_vty(depth - 1, thunks)).collect())
             }
             | 4 => {
